@@ -136,7 +136,8 @@ def _compile(src, obj, flags, log):
     with open(log, "a") as f:
         f.write("$ " + " ".join(cmd) + "\n" + r.stdout + r.stderr + "\n")
     if r.returncode != 0:
-        raise BuildError("compile failed: %s\n%s" % (src, (r.stdout + r.stderr)[-4000:]))
+        errs = [l for l in (r.stdout + r.stderr).split("\n") if "error" in l][:6]
+        raise BuildError("compile failed: %s :: %s" % (src, " | ".join(errs)[:1500]))
 
 
 def _locked(path):
